@@ -143,6 +143,8 @@ def task_sens(task):
     nvals = task.get("nvals", 6)
     points = task.get("points", [])
     res = {"goal": goal, "param": pname}
+    import time
+    t0 = time.time()
     with tempfile.NamedTemporaryFile("w", suffix=".prob", delete=False) as f:
         f.write(task["text"])
         path = f.name
@@ -160,6 +162,7 @@ def task_sens(task):
             except Unsupported as u:
                 a["unsupported"] = str(u)
             a["printed"] = [l for l in text.splitlines() if l.startswith("∂")][:4]
+        res["seconds_a"] = round(time.time() - t0, 2)
         # ---------------- (b) differentiated closed form ----------------
         b = {}
         res["b"] = b
@@ -175,6 +178,7 @@ def task_sens(task):
             b["printed"] = [l for l in text.splitlines() if l.startswith("∂")][:4]
     finally:
         os.unlink(path)
+    res["seconds"] = round(time.time() - t0, 2)
     return res
 
 
